@@ -35,7 +35,7 @@ W = 12   # symbolic bitwidths are W-bit variables constrained to 1..4095
 def bounds(tier):
     return {'part1': 'every op x arity 0..4 x symbolic bitwidths 1..4095; select index tuples from a fixed list',
             'part2': 'API-built designs with <= %d nets' % (5 if tier == 'quick' else 7),
-            'part3': 'fault kinds %r x every applicable site of %d designs' % (FAULTS, 12 if tier == 'quick' else 40)}
+            'part3': 'fault kinds %r x every applicable site of %d designs' % (FAULTS, 12 if tier == 'quick' else 90)}
 
 
 # ------------------------------------------------------------------------------------------
@@ -441,7 +441,7 @@ CYCLES = ('comb_cycle', 'isolated_ring', 'mem_cycle')   # detected by iteration 
 
 
 def part3_cases(tier, seed):
-    base = designs.expr_cases(8 if tier == 'quick' else 30, seed + 11, n=5, maxw=4, nrom=0) + \
+    base = designs.expr_cases(8 if tier == 'quick' else 80, seed + 11, n=5, maxw=4, nrom=0) + \
         [c for c in designs.seq_cases(widths=(3,)) if c['kind'] in ('chain', 'mem_rdw', 'counter', 'rom_reg')]
     out = []
     for ci, c in enumerate(base):
